@@ -46,3 +46,20 @@ CONTRACTS.append(Contract(
 # objects and str.lower) was written and executed by the engine (8 obligations, 5 discharged), but the three
 # invariant-preservation obligations stay undecided in z3 and cvc5 within any budget that fits a check
 # (> 500 s with 5 s per query).  Membership, symmetry and monotonicity are therefore bounded only.
+
+# ---- further contracts of this property live in the sibling file C13_assoc.py (same conventions)
+import importlib.util as _ilu_C13_assoc
+import os as _os_C13_assoc
+import sys as _sys_C13_assoc
+_p_C13_assoc = _os_C13_assoc.path.join(_os_C13_assoc.path.dirname(_os_C13_assoc.path.abspath(__file__)), 'C13_assoc.py')
+if _os_C13_assoc.path.exists(_p_C13_assoc):
+    _s_C13_assoc = _ilu_C13_assoc.spec_from_file_location('contracts_C13_assoc', _p_C13_assoc)
+    _m_C13_assoc = _ilu_C13_assoc.module_from_spec(_s_C13_assoc)
+    _sys_C13_assoc.modules['contracts_C13_assoc'] = _m_C13_assoc
+    _sys_C13_assoc.modules.setdefault('contracts_C13', _sys_C13_assoc.modules.get('contracts_C13') or _sys_C13_assoc.modules[__name__])
+    _s_C13_assoc.loader.exec_module(_m_C13_assoc)
+    CONTRACTS.extend(_m_C13_assoc.CONTRACTS)
+    CLASS_SPECS = globals().get('CLASS_SPECS', {})
+    for _k, _v in getattr(_m_C13_assoc, 'CLASS_SPECS', {}).items():
+        CLASS_SPECS.setdefault(_k, {}).update(_v)
+    LEMMAS = list(globals().get('LEMMAS', [])) + list(getattr(_m_C13_assoc, 'LEMMAS', []))
